@@ -327,6 +327,13 @@ PROPERTIES['C12'] = {
   ],
 }
 
+PROPERTIES['C12']['obligations'] += [
+    dict(name='hull_n%d_f16' % n, harness='c12_cross.cpp', cdefs=['VF_ALLOC_CLASSES=VF_C(4) VF_C(5) VF_C(12) VF_C(16) VF_C(20) VF_C(32) VF_C(48) VF_C(64) VF_C(80) VF_C(96) VF_C(128)'], mem_gb=24, entry='h_hull',
+         defs={'VF_LEN': n, 'VF_R': 2}, models=['stdlib.h'], real='f16', unwind={'auto': True, 'start': 3, 'max': 16, 'rounds': 30}, recursion={'default': 2}, cbmc=['--slice-formula'],
+         backends=['minisat', 'kissat'], timeout=2400, object_bits=12, tiers=['experimental'],
+         claim='HullImpl: vertices are input points; if the points are not all collinear the result has >=3 vertices, is strictly convex CCW and contains every input point',
+         bounds='%d lattice points in [-2,2]^2 (duplicates, collinear allowed); IEEE binary16 arithmetic, in which every product and difference met on this lattice is exact' % n, targets=['cross_section.cpp HullImpl, HullBacktrack', 'polygon.cpp CCW'])
+    for n in (3, 4)]
 PROPERTIES['C06'] = {
   'level_text': 'Bounded model checking of the lock-free building blocks under a rely/guarantee interference model: the real AtomicAdd CAS loop (with spurious weak-CAS failures) and Impl::ReserveIDs, executed by one thread while an environment performs up to 2 legal steps of the same operation around every atomic access, are linearisable (no lost update, returned value = state just before the own step, reserved ID ranges pairwise disjoint).',
   'level_note': 'Narrow: only the atomic building blocks. The mutex discipline on pNode_/cache_/paths_, shared_ptr atomic publication, ConcurrentSharedPtr and deadlock freedom are NOT covered (they need a concurrent engine for libstdc++ smart pointers, which this tool chain does not have). Sequential consistency assumed; <=2 interference events, <=1 spurious CAS failure.',
@@ -368,6 +375,9 @@ PROPERTIES['C01'] = {
   'obligations': [
     dict(name='remove_if_folded', harness='c01_edgeops.cpp', entry='h_remove_if_folded', defs={'VF_T': 4, 'VF_V': 4}, backends=['minisat'], timeout=900, unwind={'default': 13},
          claim='Impl::RemoveIfFolded(edge) for every live edge of every invariant state (tombstones allowed) preserves the invariant and the array sizes', bounds='4 triangles (12 halfedges), 4 vertices, fully symbolic start/pair arrays', targets=['edge_op.cpp Impl::RemoveIfFolded, PairUp', 'shared.h Halfedges']),
+    dict(name='ismanifold_gate', harness='c01_gate.cpp', entry='h_ismanifold_gate', defs={'VF_T': 4, 'VF_V': 4}, redirect={'_ZN8manifold8Manifold4Impl9MakeEmptyENS0_5ErrorE': 'vf_stub_MakeEmpty'}, backends=['minisat', 'kissat'], timeout=900, unwind={'default': 13}, recursion={'default': 2},
+         claim='Impl::IsManifold() (the gate of the import constructor and of the library\'s own topology assertions) returns true exactly for the halfedge arrays in which every live halfedge belongs to a live triangle and is paired with the opposite directed edge which points back, start != end; whole-triangle tombstones allowed',
+         bounds='4 triangles (12 halfedges), 4 vertices, every start in [-1,4) and pair in [-1,12)', targets=['properties.cpp Impl::IsManifold, CheckHalfedges', 'parallel.h all_of (Seq)', 'shared.h Halfedges']),
     dict(name='collapse_tri', harness='c01_edgeops.cpp', entry='h_collapse_tri', defs={'VF_T': 4, 'VF_V': 4}, backends=['minisat'], timeout=900, unwind={'default': 13}, tiers=['experimental'],
          claim='Impl::CollapseTri on a triangle whose edge 0 has been collapsed (start==end, unpaired) re-pairs its two neighbours and restores the invariant', bounds='4 triangles, 4 vertices', targets=['edge_op.cpp Impl::CollapseTri, PairUp']),
     dict(name='gather_faces', harness='c01_sort.cpp', entry='h_gather_faces', defs={'VF_T': 4, 'VF_V': 4}, backends=['minisat'], timeout=900, unwind={'default': 13}, recursion={'default': 2},
